@@ -62,7 +62,7 @@ theorem skel_bridge_cleanup :
 
 /-- Every test-and-clear of `Bridge.Close` lies inside its mutex; the latch comes last. -/
 theorem skel_bridge_close :
-    Skel.Bridge_Close = ["sourceConnMu.Lock", "sourceForwarder.Close", "sourceConnMu.Unlock",
+    Skel.C16_Bridge_Close = ["sourceConnMu.Lock", "sourceForwarder.Close", "sourceConnMu.Unlock",
       "tunnelConnMu.Lock", "targetForwarder.Close", "sourceTunnelConn.Close", "targetTunnelConn.Close",
       "sourceConn.Close", "targetConn.Close", "sourceStream.Close", "targetStream.Close",
       "tunnelConnMu.Unlock", "ManagerBase.Close"] := by decide
